@@ -73,7 +73,11 @@ def autocorr_1d_float(data):
     if nxy == 0:
         return result
 
-    A = nxy * Sxy - Sx_ * Sy_
+    # covariance where missing values were replaced with the mean,
+    #   i.e. the valid pairs' deviations from mean(X[valid]) and mean(Y[valid])
+    mean_X = Sx / nx
+    mean_Y = Sy / ny
+    A = (Sxy - mean_X * Sy_ - mean_Y * Sx_ + nxy * mean_X * mean_Y) * nx * ny / N
 
     # var(X[np.isfinite(X)]) Vairance of X excluding missing values
     var_X = nx * Sxx - Sx * Sx
@@ -155,7 +159,16 @@ def autocorr_1d_int(data, nodata):
     if nxy == 0:
         return result
 
-    A = nxy * float64(Sxy) - float64(Sx_) * float64(Sy_)
+    # covariance where missing values were replaced with the mean,
+    #   i.e. the valid pairs' deviations from mean(X[valid]) and mean(Y[valid])
+    mean_X = float64(Sx) / nx
+    mean_Y = float64(Sy) / ny
+    A = (
+        (float64(Sxy) - mean_X * Sy_ - mean_Y * Sx_ + nxy * mean_X * mean_Y)
+        * nx
+        * ny
+        / N
+    )
 
     # var(X[np.isfinite(X)]) Vairance of X excluding missing values
     var_X = nx * float64(Sxx) - float64(Sx) * float64(Sx)
